@@ -116,7 +116,7 @@ def gen_argv(rng, sp=None, where=None):
 
 KEYS = ["abcdef0123456789abcdef0123456789abcdef01", "Zm9v+YmFy/cXV4eA==0123456789abcdefABCDEF", "key with spaces 0123456789", "k&y=1?2#3%41234567890",
         "0123456789", "eu01xx0123456789abcdef0123456789abcdNRAL"]
-FAULTS = ["200", "malformed", "exception", "401", "409", "410", "413", "415", "500", "503", "redirect", "reset", "refused", "timeout", "badtls",
+FAULTS = ["200", "malformed", "exception", "401", "409", "410", "413", "415", "500", "503", "redirect", "redirect-other", "reset", "refused", "timeout", "badtls",
           "badhost-scheme", "badhost-blank", "badhost-port", "badhost-pct", "badhost-bracket", "badhost-ctl",
           # a request on a pooled keep-alive connection that has gone bad, and any re-send failing too
           "keepalive-reset", "keepalive-refused"]
